@@ -303,8 +303,13 @@ class Function(Value):
         )
 
     def to_model(self) -> model.Term:
-        module = self.body.to_model()
-        return model.Func(module.root)
+        from hugr.model.export import ModelExport
+
+        # The body is a dataflow graph, not a module: its children form a
+        # dataflow region with its own links.
+        export = ModelExport(self.body)
+        region = export.export_region_dfg(self.body.root)
+        return model.Func(region)
 
 
 @dataclass
